@@ -134,7 +134,18 @@ def _stale_loop_variables(f, every: bool = False):
     return out
 
 
+#: obligations whose failure contradicts the property (rule, construct pattern, why); every other failure is 'not recognised'
+POSITIVE: list[tuple[str, str, str]] = [
+    ('C12.R1', r'^MultipleExpression:override$', 'a catalog that inherits Expression.audit audits the children of the member, not the member'),
+    ('C12.R5', r':verdict$', 'a positive verdict is returned from inside a loop'),
+    ('C12.R5', r':loop-variables@', 'a loop variable is read after its loop: one element is examined, not all'),
+    ('C12.R8', r'^get_value_and_derivatives:order$', 'the formula is prepared (ids, draws) before it is audited'),
+    ('C12.R6', r':self\.theC\.|:the_cpp\.', 'engine-call contract'),
+]
+
+
 def run(ctx: Ctx) -> None:
+    ctx.positive_table = list(POSITIVE)
     prog = ctx.prog
     ctx.rule('C12.R1', 'audit descent: every override of audit in the expression hierarchy reaches, on every normal path, the audit of every child (loop over the '
              'children, the single child, super().audit, or the selected member of a catalog) and returns the children\'s findings')
@@ -166,7 +177,9 @@ def run(ctx: Ctx) -> None:
             ok, why = True, 'leaf: no children'
         else:
             ok, why = audit_descends(prog, c, f)
-        ctx.add('C12.R1', f'{c.name}.audit', ok, f, f'{c.name}.audit: {why}' + ('' if ok else ' - a fault below this node is not reported by the audit'), why)
+        # no call of any audit at all in an override of a node with children is a contradiction; a call in a form the rule does not follow is not
+        none_at_all = not ok and not any(isinstance(x, ast.Call) and call_name(x) == 'audit' for x in walk_no_nested(f.node))
+        ctx.add('C12.R1', f'{c.name}.audit', ok if (ok or none_at_all) else None, f, f'{c.name}.audit: {why}' + ('' if ok else (' - a fault below this node is not reported by the audit' if none_at_all else ' (the way the children are audited is not in the expected form)')), why, positive=none_at_all)
     ctx.floor('C12.R1', 8)
     # MultipleExpression must override audit (the base version audits the children of the selected member, not the member)
     me = prog.cls('expressions.multiple_expressions', 'MultipleExpression')
